@@ -1,6 +1,6 @@
 (* Layer B5 of the C07/C14 spec proofs: every operation of the covered sub-language keeps the
    world invariant [WI] (Proofs/C07SpecWorld.v) and only extends the signatures and the slot
-   table ([frame]).  Covered: everything except local metrics, timers, OpDrop and OpCustom
+   table ([frame]).  Covered: everything except local metrics, timers (OpTimer, OpTimerStop), OpDrop and OpCustom
    ([op_lang]); registries are not cloned ([clone_ok]). *)
 Require Import PV.Base.Prelude PV.Base.Utf8 PV.Base.Fnv PV.Base.F64 PV.Base.StrFacts PV.Base.SortFacts.
 Require Import PV.Model.Proto PV.Model.Desc PV.Model.Value PV.Model.Hist PV.Model.Vec PV.Model.Registry PV.Model.World.
@@ -348,7 +348,7 @@ Import PV.Spec.SpecC07.
 Definition op_lang (o : op) : bool :=
   match o with
   | OpLocal _ | OpFlush _ | OpClear _ | OpDrop _ | OpLvInc _ _ _ | OpLvObserve _ _ _ | OpLvRemove _ _
-  | OpTimer _ | OpTimerStop _ _ _ _ | OpClosure _ _ _ | OpCustom _ _ => false
+  | OpTimer _ | OpTimerStop _ _ _ _ | OpCustom _ _ => false
   | OpCounter _ o' | OpGauge _ o' | OpCounterVec _ o' _ | OpGaugeVec _ o' _ => opts_ok o'
   | OpHistogram ho | OpHistVec ho _ => opts_ok (ho_common ho)
   | _ => true
@@ -472,6 +472,8 @@ Proof.
       cbn [entry_spec]. rewrite Es. split; reflexivity.
     + split; [apply P_push; auto; intros r; discriminate|reflexivity|]. cbn [pushes]. eexists. split; [reflexivity|]. split; [intros r; discriminate|]. intros _. split; [reflexivity|].
       cbn [entry_spec]. rewrite Es. split; reflexivity.
+  - (* OpClosure *) dslot w s W; try (apply res_same; auto; fail); cbn [fst snd]. apply res_nopush; auto. apply P_updh; auto.
+    intros x. destruct (hc_observe_desc x (as_secs_f64 secs nanos)). split; [unfold hsig; congruence|apply Q_observe].
   - (* OpGather *) dslot w r W; try (apply res_same; auto; fail).
     destruct (nth_error (w_reg w) r0) as [rc|]; [|apply res_same; auto].
     destruct (collect_all w (r_collectors rc)) as [[fs w']|] eqn:E; [|apply res_same; auto]. cbn [fst snd].
